@@ -369,7 +369,9 @@ func ensureAdd(root **V, p string, v *V, o Opts) Result {
 			cur = nx
 		case KArr:
 			if !isIdx(t) {
-				return ood("ensure: name token addressed into an array")
+				// an existing array has no members to descend into or to create: the add cannot be
+				// applied, with or without the option (the option creates MISSING parents only)
+				return Result{Cause: CIndexSyntax}
 			}
 			n, _, _ := ParseIdx(t)
 			if n < len(cur.Arr) {
@@ -409,7 +411,7 @@ func ensureAdd(root **V, p string, v *V, o Opts) Result {
 			copy(cur.Arr[n+1:], cur.Arr[n:])
 			cur.Arr[n] = v
 		default:
-			return ood("ensure: name token addressed into an array")
+			return Result{Cause: CIndexSyntax}
 		}
 	}
 	return res
